@@ -8,6 +8,7 @@ import (
 	"slices"
 	"strconv"
 	"sync"
+	"sync/atomic"
 
 	eth2api "github.com/attestantio/go-eth2-client/api"
 	eth2v1 "github.com/attestantio/go-eth2-client/api/v1"
@@ -211,6 +212,7 @@ type ProposerDuties struct {
 // ProposerDutiesForEpoch is a map of proposer duties for specific epoch.
 type ProposerDutiesForEpoch struct {
 	requestedIdxs []eth2p0.ValidatorIndex
+	gen           uint64 // DutiesCache.invalidations observed before the beacon node was queried.
 	duties        []eth2v1.ProposerDuty
 	metadata      map[string]any
 }
@@ -227,6 +229,7 @@ type AttesterDuties struct {
 // AttesterDutiesForEpoch is a map of attester duties for specific epoch.
 type AttesterDutiesForEpoch struct {
 	requestedIdxs []eth2p0.ValidatorIndex
+	gen           uint64 // DutiesCache.invalidations observed before the beacon node was queried.
 	duties        []eth2v1.AttesterDuty
 	metadata      map[string]any
 }
@@ -243,6 +246,7 @@ type SyncDuties struct {
 // SyncDutiesForEpoch is a map of sync committee duties for specific epoch.
 type SyncDutiesForEpoch struct {
 	requestedIdxs []eth2p0.ValidatorIndex
+	gen           uint64 // DutiesCache.invalidations observed before the beacon node was queried.
 	duties        []eth2v1.SyncCommitteeDuty
 	metadata      map[string]any
 }
@@ -303,6 +307,7 @@ func NewDutiesCache(eth2Cl Client, valIdxs []eth2p0.ValidatorIndex) *DutiesCache
 type DutiesCache struct {
 	eth2Cl        Client
 	activeValIdxs ValIdxs
+	invalidations atomic.Uint64 // Number of InvalidateCache calls; duties fetched before an invalidation are not stored after it.
 
 	proposerDuties ProposerDuties
 	attesterDuties AttesterDuties
@@ -326,6 +331,8 @@ func (c *DutiesCache) Trim(epoch eth2p0.Epoch) {
 // Meaning, we should invalidate all duties after that epoch.
 func (c *DutiesCache) InvalidateCache(ctx context.Context, epoch eth2p0.Epoch) {
 	invalidated := false
+
+	c.invalidations.Add(1)
 
 	ok := c.trimAfterProposerDuties(epoch)
 	if ok {
@@ -383,6 +390,7 @@ func (c *DutiesCache) ProposerDutiesCache(ctx context.Context, epoch eth2p0.Epoc
 		requestVidxs = slices.Clone(allActive)
 	}
 
+	gen := c.invalidations.Load()
 	dutiesForEpoch, ok := c.fetchProposerDuties(epoch)
 	dutiesResult := make([]*eth2v1.ProposerDuty, 0, len(vidxs))
 
@@ -443,7 +451,7 @@ func (c *DutiesCache) ProposerDutiesCache(ctx context.Context, epoch eth2p0.Epoc
 		dutiesDeref = append(dutiesDeref, d)
 	}
 
-	_, ok = c.storeOrAmendProposerDuties(epoch, ProposerDutiesForEpoch{duties: dutiesDeref, metadata: eth2Resp.Metadata, requestedIdxs: requestVidxs})
+	_, ok = c.storeOrAmendProposerDuties(epoch, ProposerDutiesForEpoch{duties: dutiesDeref, metadata: eth2Resp.Metadata, requestedIdxs: requestVidxs, gen: gen})
 	if !ok {
 		log.Debug(ctx, "Failed to cache proposer duties - another routine already cached duties for this epoch, skipping", z.U64("epoch", uint64(epoch)))
 	}
@@ -478,6 +486,7 @@ func (c *DutiesCache) AttesterDutiesCache(ctx context.Context, epoch eth2p0.Epoc
 		requestVidxs = slices.Clone(allActive)
 	}
 
+	gen := c.invalidations.Load()
 	dutiesForEpoch, ok := c.fetchAttesterDuties(epoch)
 	dutiesResult := make([]*eth2v1.AttesterDuty, 0, len(vidxs))
 
@@ -538,7 +547,7 @@ func (c *DutiesCache) AttesterDutiesCache(ctx context.Context, epoch eth2p0.Epoc
 		dutiesDeref = append(dutiesDeref, d)
 	}
 
-	_, ok = c.storeOrAmendAttesterDuties(epoch, AttesterDutiesForEpoch{duties: dutiesDeref, metadata: eth2Resp.Metadata, requestedIdxs: requestVidxs})
+	_, ok = c.storeOrAmendAttesterDuties(epoch, AttesterDutiesForEpoch{duties: dutiesDeref, metadata: eth2Resp.Metadata, requestedIdxs: requestVidxs, gen: gen})
 	if !ok {
 		log.Debug(ctx, "Failed to cache attester duties - another routine already cached duties for this epoch, skipping", z.U64("epoch", uint64(epoch)))
 	}
@@ -573,6 +582,7 @@ func (c *DutiesCache) SyncCommDutiesCache(ctx context.Context, epoch eth2p0.Epoc
 		requestVidxs = slices.Clone(allActive)
 	}
 
+	gen := c.invalidations.Load()
 	dutiesForEpoch, ok := c.fetchSyncDuties(epoch)
 	dutiesResult := make([]*eth2v1.SyncCommitteeDuty, 0, len(vidxs))
 
@@ -635,7 +645,7 @@ func (c *DutiesCache) SyncCommDutiesCache(ctx context.Context, epoch eth2p0.Epoc
 		dutiesDeref = append(dutiesDeref, d)
 	}
 
-	_, ok = c.storeOrAmendSyncDuties(epoch, SyncDutiesForEpoch{duties: dutiesDeref, metadata: eth2Resp.Metadata, requestedIdxs: requestVidxs})
+	_, ok = c.storeOrAmendSyncDuties(epoch, SyncDutiesForEpoch{duties: dutiesDeref, metadata: eth2Resp.Metadata, requestedIdxs: requestVidxs, gen: gen})
 	if !ok {
 		log.Debug(ctx, "Failed to cache sync duties - another routine already cached duties for this epoch, skipping", z.U64("epoch", uint64(epoch)))
 	}
@@ -721,6 +731,10 @@ func (c *DutiesCache) storeOrAmendProposerDuties(epoch eth2p0.Epoch, dutiesForEp
 	c.proposerDuties.Lock()
 	defer c.proposerDuties.Unlock()
 
+	if dutiesForEpoch.gen != c.invalidations.Load() {
+		return nil, false // The cache was invalidated (reorg) while these duties were being fetched: they may be stale.
+	}
+
 	alreadySavedDuties, ok := c.proposerDuties.duties[epoch]
 	if !ok {
 		c.proposerDuties.duties[epoch] = dutiesForEpoch.duties
@@ -768,6 +782,10 @@ func (c *DutiesCache) storeOrAmendProposerDuties(epoch eth2p0.Epoch, dutiesForEp
 func (c *DutiesCache) storeOrAmendAttesterDuties(epoch eth2p0.Epoch, dutiesForEpoch AttesterDutiesForEpoch) ([]eth2v1.AttesterDuty, bool) {
 	c.attesterDuties.Lock()
 	defer c.attesterDuties.Unlock()
+
+	if dutiesForEpoch.gen != c.invalidations.Load() {
+		return nil, false // The cache was invalidated (reorg) while these duties were being fetched: they may be stale.
+	}
 
 	alreadySavedDuties, ok := c.attesterDuties.duties[epoch]
 	if !ok {
@@ -817,6 +835,10 @@ func (c *DutiesCache) storeOrAmendAttesterDuties(epoch eth2p0.Epoch, dutiesForEp
 func (c *DutiesCache) storeOrAmendSyncDuties(epoch eth2p0.Epoch, dutiesForEpoch SyncDutiesForEpoch) ([]eth2v1.SyncCommitteeDuty, bool) {
 	c.syncDuties.Lock()
 	defer c.syncDuties.Unlock()
+
+	if dutiesForEpoch.gen != c.invalidations.Load() {
+		return nil, false // The cache was invalidated (reorg) while these duties were being fetched: they may be stale.
+	}
 
 	alreadySavedDuties, ok := c.syncDuties.duties[epoch]
 	if !ok {
